@@ -430,7 +430,8 @@ func (p *Planner) byName(e *Expect, f *types.Var, lpkg *types.Package, rtype typ
 				}
 				if len(e.Children) == 0 {
 					// nothing the package can touch inside: the field itself must be accounted for
-					e.Alts = []Alt{{Kind: "nomatch"}, {Kind: "descend", Src: expr(c)}}
+					// (C04: "fields left over are reported as no match"; a descent into nothing would leave no trace at all - round 5, C04-m9)
+					e.Alts = []Alt{{Kind: "nomatch"}}
 				}
 				return e
 			}
